@@ -43,7 +43,8 @@ func (self ValueAnyObject) IsEqual(other Value) (bool, *VmInterrupt) {
 
 	for key, value := range self.FieldsInternal {
 		otherValue, found := otherObj.FieldsInternal[key]
-		if !found {
+		// the untyped content of `{ ? }` may differ in kind under the same key
+		if !found || (*value).Kind() != (*otherValue).Kind() {
 			return false, nil
 		}
 		isEqual, i := (*value).IsEqual(*otherValue)
